@@ -39,6 +39,41 @@ theorem C11_independent (h : Heap) (c : Cont) (hc : FpOK h c) (ops : List Op) :
   · rw [run_frame ops _ _ c hok' hok hsep, hv]
   · exact run_frame ops _ c _ hok hok' ⟨fun e => hsep.1 e.symm, fun p hp q hq e => hsep.2 q hq p hp e.symm⟩
 
+/-! ### which references each method keeps and which it rebinds
+
+These four facts are what the check observes on the real objects after each method call (identity of
+`__items` and of the value list of the key), so that the model's in-place / rebind choices are tied to
+collections.py and not only its results. -/
+
+theorem append_keeps_item_list (h : Heap) (c : Cont) (k : K) (v : V) : (append h c k v).2.items = c.items := by
+  unfold append; split <;> rfl
+
+theorem delitem_rebinds_item_list (h : Heap) (c : Cont) (k : K) : (delitem h c k).2.items = h.iNext := rfl
+
+theorem setitem_existing_rebinds_values (h : Heap) (c : Cont) (k : K) (v : V)
+    (hk : c.dict.any (fun p => p.1 == k) = true) :
+    (setitem h c k v).2.items = c.items ∧ ∀ p ∈ (setitem h c k v).2.dict, (p.1 == k) = true → p.2 = h.vNext := by
+  unfold setitem
+  simp only [hk, if_true]
+  refine ⟨by trivial, ?_⟩
+  intro p hp hpk
+  simp only [Heap.allocVals, List.mem_map] at hp
+  obtain ⟨q, _, e⟩ := hp
+  split at e
+  · rw [← e]
+  · rename_i hne
+    rw [← e] at hpk
+    exact absurd hpk hne
+
+theorem popLast_keeps_item_list (h : Heap) (c : Cont) : (popLast h c).2.items = c.items := by
+  unfold popLast
+  split
+  · rfl
+  · simp only
+    split
+    · split <;> rfl
+    · rfl
+
 /-- a heap with one container holding the pair (1, 5) -/
 def h0 : Heap := ⟨fun i => if i = 0 then [(1, 5)] else [], 1, fun i => if i = 0 then [5] else [], 1⟩
 def c0 : Cont := ⟨0, [(1, 0)]⟩
